@@ -377,6 +377,7 @@ func (m *UDPMuxDefault) writeToContext(ctx context.Context, buf []byte, rAddr ne
 			select {
 			case <-done:
 				if !stopped.Load() {
+					verifhook.Yield("udpmux.ctxAbort.beforeAbort")
 					if abortErr := m.abortWrite(); abortErr != nil {
 						m.params.Logger.Warnf("Failed to abort UDP write: %v", abortErr)
 					}
